@@ -51,4 +51,9 @@ def jobs(tier):
                      checks="assert", unwind=262, timeout=600, min_witnesses=1,
                      encodes=["bus_registry_acquire_service", "_dbus_validate_bus_name"],
                      bounds=f"the well-formed name 'a.bbb...' of length {ln} (maximum name length 255) through RequestName", shape=f"name-request route, length {ln}"))
+    # C16.f: public wrappers of dbus-syntax.c agree with the grammar (same verdict as the internal predicates) on C strings
+    for which, n in (("path", 6), ("interface", 6), ("member", 6), ("error_name", 6), ("bus_name", 6), ("utf8", 6)):
+        J.append(Job(name=f"f.public.{which}.N{n}", group="C16.f", harness="harness/C16_public.c", defines={"WHICH": which, "N": n}, real=["dbus/dbus-syntax.c", V, S], env=COMMON_ENV,
+                     unwind=n + 7, unwindset=["strcmp.0:48"], timeout=600, extra=["--object-bits", "11"], encodes=["dbus_validate_" + which, "_dbus_string_init_const"],
+                     bounds=f"every NUL-terminated C string of up to {n} bytes (full alphabet)", shape=f"public {which}, N={n}"))
     return J
